@@ -661,10 +661,10 @@ func builtinArrayReduce(call FunctionCall) Value {
 func builtinArrayReduceRight(call FunctionCall) Value {
 	thisObject := call.thisObject()
 	this := objectValue(thisObject)
+	length := int64(toUint32(thisObject.get(propertyLength)))
 	if iterator := call.Argument(0); iterator.isCallable() {
 		initial := len(call.ArgumentList) > 1
 		start := call.Argument(1)
-		length := int64(toUint32(thisObject.get(propertyLength)))
 		if length > 0 || initial {
 			index := length - 1
 			var accumulator Value
